@@ -24,7 +24,9 @@ class C15(Prop):
             "overlapping folds and folds that cut the grid, configured episode lengths 1..fold size+1, every start "
             "index forced in turn through the intercepted sampler, steps until the episode ends plus one more; in a quarter of the cases the "
             "Transmitter first holds only the beginning of the data and serves another environment on every fold, the "
-            "rest being appended (add_timesteps / add_events) before the environment under test is built on it; "
+            "rest being appended (add_timesteps / add_events) before the environment under test is built on it; in 30% a "
+            "second environment with its own Transmitter over a sub-grid (default fold, same fold name) is alive, built "
+            "and reset before the one under test; "
             "(b) walk-forward: every (N, train, test, sliding) with N <= 16 (quick) / 40 (thorough), enumerated "
             "exhaustively. Non-trivial = an episode with a configured length inside a fold narrower than the grid, or a "
             "start index > 0, or a length for which no start fits, or a walk-forward with >= 2 folds; distinct = "
@@ -72,6 +74,8 @@ class C15(Prop):
         nsteps = (case["eplen"] or size) + 1
         case["ops"] = [["reset", fold, start]] + [["step", [str(Fraction(i % 5, 8))]] for i in range(nsteps + 1)]
         case["kind"] = "episode"
+        # a second live environment with its own Transmitter over other data (built and reset before the one under test)
+        case["sibling"] = rng.random() < 0.3
         if len(grid) >= 3 and rng.random() < 0.25:
             # the data is appended to a Transmitter that has already served episodes on these folds
             case["grow_after"] = rng.randint(1, len(grid) - 1)
